@@ -124,7 +124,7 @@ def build_and_verify(unit_name, src, th, timeout=900, seed=None):
 
     def one(item):
         suffix, p, text, names = item
-        r = run_verus(p, timeout=timeout, extra=extra)
+        r = run_verus(p, timeout=timeout, extra=extra, rlimit=(40 if suffix == 'main' else 80))
         c = classify(r, text)
         c.update(file=p, suffix=suffix, wall=r['wall'], cmd=r['cmd'], stderr_tail=r['stderr'][-4000:], lemma_names=names)
         return c
